@@ -15,7 +15,7 @@ Four exhaustively enumerated spaces, all on the real implementation:
  J  joint    several different lazy simulations are evaluated in ONE dask graph - every subset of a member list - and each must equal
              the result it gives on its own (dask key collisions, shared layers).
  P  preempt  ONE preemption inside a task: a fused multislice block is parked at its k-th call into abTEM code (sys.settrace), another ready
-             block runs to completion, the first resumes; every k (thorough) / a uniform stride (quick), both roles (mc/preempt.py).
+             block runs to completion, the first resumes; every k (thorough) / a uniform stride (quick), both roles, for every distinct pair of task kinds that are ready together in multislice, PRISM and CTF pipelines (mc/preempt.py).
  D  threads  (race detector only, sampling, never the deciding step) the same graphs free-running on dask's threaded
              scheduler, 3 repetitions, compared with the synchronous result.
 """
